@@ -59,11 +59,33 @@ func (it *Interp) mul64(x, y Val) TupleV {
 	l.Wide, l.Part = w, 0
 	h.Sym = symBin("mulhi", x.Sym, y.Sym, 64)
 	l.Sym = symBin("mullo", x.Sym, y.Sym, 64)
+	if it.H.Polys {
+		if pp := PolyMul(it.polyOf(x), it.polyOf(y)); pp != nil {
+			h.Poly = it.polyHigh(pp, hi, 64)
+			l.Poly = it.polyLow(pp, hi, 64)
+		}
+	}
 	return TupleV{h, l}
 }
 
 // add64 models bits.Add64 including the pairing of low/high halves of 128-bit accumulators.
 func (it *Interp) add64(call *ssa.Call, x, y, cin Val) TupleV {
+	t := it.add64i(call, x, y, cin)
+	if it.H.Polys {
+		px, py, pc := it.polyOf(x), it.polyOf(y), it.polyOf(cin)
+		if px != nil && py != nil && pc != nil {
+			tot := PolyAdd(PolyAdd(px, py, 1), pc, 1)
+			hi := new(big.Int).Add(new(big.Int).Add(x.Hi, y.Hi), cin.Hi)
+			s, c := t[0].(Val), t[1].(Val)
+			s.Poly = it.polyLow(tot, hi, 64)
+			c.Poly = it.polyHigh(tot, hi, 64)
+			return TupleV{s, c}
+		}
+	}
+	return t
+}
+
+func (it *Interp) add64i(call *ssa.Call, x, y, cin Val) TupleV {
 	discardCarry := !hasExtract(call, 1)
 	// high-half addition that consumes the carry of a recorded low-half addition
 	if cin.CarryOf != nil {
